@@ -32,9 +32,12 @@ type Case struct {
 	Go      core.Obs      `json:"go"`
 	JSObs   core.Obs      `json:"jsObs"`
 	// filled by the TLC validation
-	Verdict string `json:"verdict,omitempty"` // OK OUT JS GO ALL SPEC
-	Reason  string `json:"reason,omitempty"`  // for OUT
-	ExpOut  string `json:"specOut,omitempty"`
+	Verdict  string   `json:"verdict,omitempty"` // OK OUT JS GO ALL SPEC
+	Reason   string   `json:"reason,omitempty"`  // for OUT
+	ExpOut   string   `json:"specOut,omitempty"`
+	Features []string `json:"features,omitempty"`
+	// FixedFiles (replay) replace the unparsed program text
+	FixedFiles []core.File `json:"-"`
 	// harness trouble (generator produced something the compiler rejects)
 	Skip string `json:"skip,omitempty"`
 }
@@ -137,9 +140,9 @@ type catalog struct {
 	msgs map[uint64]*soymsg.Message
 }
 
-func (c *catalog) Locale() string                     { return c.rule }
-func (c *catalog) Message(id uint64) *soymsg.Message  { return c.msgs[id] }
-func (c *catalog) PluralCase(n int) int               { return pluralGo(c.rule, n) }
+func (c *catalog) Locale() string                    { return c.rule }
+func (c *catalog) Message(id uint64) *soymsg.Message { return c.msgs[id] }
+func (c *catalog) PluralCase(n int) int              { return pluralGo(c.rule, n) }
 
 var _ soymsg.Bundle = (*catalog)(nil)
 
@@ -153,6 +156,9 @@ const preJS = "var console = {log: function(){}};\n"
 // Exec fills c.Files, c.JS, c.Go and c.JSObs.
 func (r *Runner) Exec(c *Case) {
 	c.Files = core.UnparseProgram(c.Prog, c.Style)
+	if c.FixedFiles != nil {
+		c.Files = c.FixedFiles
+	}
 	comp, err, pan := core.Compile(c.Files, core.ToDataMap(c.Prog.Glob))
 	if err != nil {
 		c.Go = core.Obs{Err: true, CompileErr: err.Error(), Panicked: pan}
